@@ -27,6 +27,7 @@
 #include <string.h>
 #include <stdint.h>
 #include <stdarg.h>
+#include <locale.h>
 #include "xraylib.h"
 #include "xraylib-error-private.h"
 
@@ -72,6 +73,7 @@ int main(void) {
   static char line[1 << 16], b1[1 << 16], b2[1 << 12];
   char *tok[8];
   Crystal_Array *arr = NULL; long arr_base = 0;
+  setlocale(LC_ALL, "");      /* the process locale comes from the environment (the check runs the histories under C and under C.UTF-8) */
   setvbuf(stdout, NULL, _IOLBF, 1 << 12);
   while (fgets(line, sizeof line, stdin)) {
     int nt = 0;
